@@ -8,6 +8,7 @@ OUT=${OUT:-/tmp/wv_matrix_out}
 ALL="C01 C02 C03 C04 C05 C06 C07 C08 C09 C10 C11 C12 C13 C14 C15 C16 C17 C18"
 mkdir -p $OUT
 for d in ${@:-$HERE/../seeded/*}; do
+  d=$(cd "$d" 2>/dev/null && pwd) || continue
   id=$(basename $d)
   [ -f $d/patch.diff ] || continue
   git -C /repo worktree remove --force $W >/dev/null 2>&1; rm -rf $W
